@@ -85,7 +85,7 @@ def run_worker(jobs, on_result):
 
 
 def run_replay(obl, args, kwargs, mode="check", real_loop=False, trace=False, timeout=600):
-    job = {"obl": obl.to_json(), "args": args, "kwargs": kwargs, "mode": mode, "real_loop": real_loop, "trace": trace}
+    job = {"obl": obl.to_json(), "args_repr": repr(list(args)), "kwargs_repr": repr(dict(kwargs)), "mode": mode, "real_loop": real_loop, "trace": trace}
     try:
         p = subprocess.run([PY, "-m", "vlib.replay", json.dumps(job)], capture_output=True, text=True, env=_env(), cwd=VERIF, timeout=timeout)
     except subprocess.TimeoutExpired:
@@ -227,7 +227,10 @@ def check_property(pid, tier, seed, only=None):
                     entry["verdict"] = "INCONCLUSIVE"; continue
             args, kwargs = cex
             n_replayed += 1
-            code, info = run_replay(o, args, kwargs)
+            ro = o
+            if o.engine == "smt":
+                ro = Obl.from_json(o.to_json()); ro.func = o.func + "_replay"
+            code, info = run_replay(ro, args, kwargs)
             if code == 1 and o.real_loop:
                 code2, info2 = run_replay(o, args, kwargs, real_loop=True)
                 info["real_loop"] = {"code": code2, "exception": info2.get("exception"), "detail": info2.get("detail")}
@@ -261,7 +264,7 @@ def check_property(pid, tier, seed, only=None):
                 entry["verdict"] = "VIOLATION"
                 os.makedirs(os.path.join(EVDIR, "replay"), exist_ok=True)
                 rp = os.path.join(EVDIR, "replay", o.id + ".json")
-                json.dump({"property": pid, "obligation": o.to_json(), "args": args, "kwargs": kwargs, "replay": info,
+                json.dump({"property": pid, "obligation": o.to_json(), "args": repr(list(args)), "kwargs": repr(dict(kwargs)), "replay": info,
                            "crosshair_message": entry.get("message")}, open(rp, "w"), indent=1, default=repr)
                 violations.append((o, args, info, rp))
         else:
@@ -361,10 +364,14 @@ COMMON_ASSUMPTIONS = [
 ]
 
 
+def _lit(x):
+    return ast.literal_eval(x) if isinstance(x, str) else x
+
+
 def replay_file(path):
     d = json.load(open(path))
     o = Obl.from_json(d["obligation"])
-    code, info = run_replay(o, d["args"], d.get("kwargs", {}))
+    code, info = run_replay(o, _lit(d["args"]), _lit(d.get("kwargs", {})))
     log(f"replay of {o.id} with args={d['args']}: verdict={'holds' if code == 0 else 'FAILS' if code == 1 else 'harness error'}")
     log(json.dumps(info, indent=1, default=repr)[:4000])
     return 1 if code == 1 else (0 if code == 0 else 2)
